@@ -222,16 +222,17 @@ def binary_format_validator(validator, types, instance, schema):
                     f"{v['type']} type must have binaryFormat set"
                 )
     # null type must be padding
-    if (
-        validator.is_type(instance, "object")
-        and "null" in instance
-        and instance["null"].get("type") == "null"
-        and "binaryFormat" in instance["null"]
-        and instance["null"]["binaryFormat"][-1] != "x"
-    ):
-        yield jsonschema.ValidationError(
-            'null type binaryFormat must be padding ("x") if set'
-        )
+    if validator.is_type(instance, "object"):
+        for v in instance.values():
+            if (
+                isinstance(v, dict)
+                and v.get("type") == "null"
+                and isinstance(v.get("binaryFormat"), str)
+                and not v["binaryFormat"].endswith("x")
+            ):
+                yield jsonschema.ValidationError(
+                    'null type binaryFormat must be padding ("x") if set'
+                )
 
 
 def array_length_validator(validator, types, instance, schema):
